@@ -14,7 +14,7 @@ all effects lie on the miss edge, a hit returns the cached value; tasks run with
 key their result by the node they traversed; (3) E9 parallel effects — every write to shared state
 reachable (instance graph) from the task closure is fetch_add/fetch_sub, `x = x ± e` under the
 mutex, or a set-once under the lock; (4) E1 — no function of the rand family is reachable from
-solve_full_single / solve_full_multi; (5) zero unsafe; (6) the frontier expansion gives every child of a player node a fresh copy of the parent's reach before scaling it by that action's probability (no loop-carried reach). Not decided: that the frontier is a set of
+solve_full_single / solve_full_multi; (5) zero unsafe; (6) the frontier expansion gives every child of a player node a fresh copy of the parent's reach before scaling it by that action's probability (no loop-carried reach); (7) the cache the tasks filled is still filled when the traversal from the root is handed it: no clear / drain / re-initialisation of the par_extend receiver on a path (within one pass) from the fill to that call. Not decided: that the frontier is a set of
 disjoint subtrees covering what the root traversal skips, and equality up to summation order as a
 number.
 """
@@ -33,4 +33,5 @@ def run(ctx):
     parallel.child_reach_fresh(ctx, 'C06', ['solve::vanilla::thread_threshold'])
     parallel.frontier_reach_form(ctx, 'C06')
     parallel.frontier_search_pure(ctx, 'C06', ['vanilla'])
+    parallel.cache_live_at_root(ctx, 'C06', ['vanilla'])
     parallel.no_unsafe(ctx, 'C06')
